@@ -753,6 +753,9 @@ func (p *parent) finish() int {
 			p.run.Inconclusive(fmt.Sprintf("surface%d evaluated no input", s))
 		}
 	}
+	if p.fl.Replay == "" && p.totals[1] > 0 && p.run.Counter("faults_hit_create_floatingips") == 0 {
+		p.run.Inconclusive("no injected fault hit a FloatingIP create (the failed-write paths of the IPAM were not exercised)")
+	}
 	if p.fl.Replay == "" && p.run.Counter("probes_run") == 0 {
 		p.run.Inconclusive("no lock probe was run")
 	}
